@@ -110,6 +110,15 @@ CHECKS.update({
         design="5/C12"),
 })
 
+CHECKS.update({
+    "C08": dict(
+        engine="tgv-lsp",
+        technique=FORM_S + "; deadlock = a parked thread exists and none is enabled by the lock model; state matching on (program counters, lock model)",
+        text="The real Server router, real salsa and the real tokio blocking pool are run with every thread parked at every schedule point (hook H3: message start, file-table lock wants, salsa input writes, task start). A controller resumes one enabled thread at a time and a depth-first search executes every choice sequence of every scenario didOpen ; m2 [; m3 [; m4]]; every request must produce a response and every notification its publications.",
+        note="unhooked locks are assumed to be leaf locks; the lock model is asserted against reality on every acquisition; handlers are straight-line between schedule points, which justifies not re-expanding an expanded state",
+        design="5/C08"),
+})
+
 NOT_YET = {}
 
 def main():
